@@ -95,8 +95,8 @@ pub fn render(case: &MecabCase) -> Files {
 fn mecab_case() -> BoxedStrategy<MecabCase> {
     (
         (1usize..=8).prop_flat_map(|n| (0..n).map(|j| (bigram_side(j, 'L'), bigram_side(j, 'R'))).collect::<Vec<_>>()),
-        vec(vec(any::<u16>(), 1..=4), 1..=8),
-        vec(vec(any::<u16>(), 1..=4), 1..=8),
+        vec(prop_oneof![8 => vec(any::<u16>(), 1..=4), 1 => vec(any::<u16>(), 11..=22)], 1..=8),
+        vec(prop_oneof![8 => vec(any::<u16>(), 1..=4), 1 => vec(any::<u16>(), 11..=22)], 1..=8),
         vec((any::<u16>(), any::<u16>(), any::<u16>(), any::<u16>(), 0u8..10), 0..=40),
         0u8..4,
         prop_oneof![8 => Just(0u8), 1 => 1u8..=4],
@@ -151,7 +151,7 @@ impl Sub for Conversion {
         mecab_case()
     }
     fn rule(&self) -> String {
-        "MeCab model descriptions: feature.def with 1-8 BIGRAM templates (%L/%L?/%R/%R? with literal prefixes; UNIGRAM lines that must be ignored), left-id.def / right-id.def with id 0 = BOS/EOS and 1-8 further ids over a small vocabulary \
+        "MeCab model descriptions: feature.def with 1-8 BIGRAM templates (%L/%L?/%R/%R? with literal prefixes, column indices 0-4 and occasionally 9-12, 19-21, 100; id rows of 1-4 and occasionally 11-22 cells; UNIGRAM lines that must be ignored), left-id.def / right-id.def with id 0 = BOS/EOS and 1-8 further ids over a small vocabulary \
          incl. '*' and quoted cells, model.def with unique lines for realisable expansions (positive, negative, zero weights, weights truncating to 0 under the factor), unrealisable texts, BOS/EOS contexts and unigram lines; cost_factor ∈ {1,100,700,800.5}; \
          error variants: a removed middle id, a malformed id line, id 0 that is not BOS/EOS; oracle: the emitted files compile (raw connector) and for every pair of non-zero ids cost == Σ_p −trunc(w_p·factor) over templates applicable to both ids \
          (reference expansion), also read black-box through two-token probe sentences; id lines are 1..n dense and ascending; error variants ⇒ Err; non-trivial = a pair with ≥2 contributing templates and a pair where an optional template applies on one side only; \
